@@ -520,6 +520,20 @@ func (f *Frame) callContract(callee *ssa.Function, con *Contract, args []Val, pc
 		}
 		vars[p.Name()] = a
 	}
+	// a closure called through its contract: its free variables are the values carried by the function value
+	if len(f.pendingFree) == len(callee.FreeVars) {
+		for i, fv := range callee.FreeVars {
+			b := f.pendingFree[i]
+			b.Typ = fv.Type()
+			if b.Loc != nil {
+				b = Val{T: f.ptrTerm(b), Typ: fv.Type()}
+			}
+			vars[fv.Name()] = b
+		}
+	} else if len(callee.FreeVars) > 0 {
+		unsup("closure %s called through its contract without its captured variables", name)
+	}
+	f.pendingFree = nil
 	pre := st.clone()
 	env := &Env{vc: vc, pkg: callee.Pkg, st: st, old: pre, vars: vars, fn: callee}
 	f.bindGhosts(con, env, true)
@@ -595,6 +609,16 @@ func (f *Frame) callContract(callee *ssa.Function, con *Contract, args []Val, pc
 		delete(modRefs, poolArraysComp)
 		delete(modRefs, bufArrComp)
 		delete(modRefs, poolHeldComp) // a callee puts back only what it got itself: our checked-out buffers stay ours
+		if _, ok := vc.compSorts[bufSepComp]; ok {
+			// ... and writes only to buffers it got itself: the ghost of our checked-out buffers is unchanged
+			sep := vc.comp(st, bufSepComp, "(Array Int Int)")
+			held := vc.comp(st, poolHeldComp, "(Array Int Bool)")
+			sep2 := vc.freshConst("post "+bufSepComp, "(Array Int Int)")
+			vc.assert(fmt.Sprintf("(forall ((b Int)) (! (=> (select %s b) (= (select %s b) (select %s b))) :pattern ((select %s b))))", held, sep2, sep, sep2))
+			f.noteCompSt(st, bufSepComp)
+			st.heap[bufSepComp] = sep2
+		}
+		delete(modRefs, bufSepComp)
 		delete(modRefs, elemComp(types.Typ[types.Uint8]))
 	}
 	if anything {
@@ -953,6 +977,9 @@ func (f *Frame) callFnValue(fv Val, sig *types.Signature, args []Val, pc string,
 		cands = []*ssa.Function{fn}
 		static = true
 	}
+	if set, ok := vc.fnSetOfTerm[fv.T]; ok && !static && len(set) > 0 {
+		cands = set // one of a few functions stored on the paths that lead here (the dispatch below still branches on the value)
+	}
 	if os.Getenv("GOVC_DEBUG") != "" {
 		fmt.Fprintf(os.Stderr, "callFnValue in %s: fv=%s static=%v cands=%d\n", shortFn(f.fn), fv.T, static, len(cands))
 	}
@@ -990,6 +1017,8 @@ func (f *Frame) callFnValue(fv Val, sig *types.Signature, args []Val, pc string,
 	var results []Val
 	var idConds []string
 	var work []*ssa.Function
+	var viaContract []*Contract
+	var viaTargets []*ssa.Function
 	grouped := map[*ssa.Function][]*ssa.Function{}
 	if static {
 		work = cands
@@ -1039,8 +1068,11 @@ func (f *Frame) callFnValue(fv Val, sig *types.Signature, args []Val, pc string,
 			f.thinCalls = true
 		}
 		defer func() { f.thinCalls = savedThin }()
-		if con != nil && !con.Inline && len(bindings) == 0 {
+		if con != nil && !con.Inline && (len(bindings) == 0 || len(bindings) == len(target.FreeVars)) {
+			f.pendingFree = bindings
 			r, npc = f.callContract(target, con, cargs, bpc, bst, ins)
+			viaContract = append(viaContract, con)
+			viaTargets = append(viaTargets, target)
 		} else if f.depth < maxInlineDepth && !f.inStack(target) {
 			r, npc = f.inline(target, con, cargs, bindings, bpc, bst, ins)
 		} else {
@@ -1053,7 +1085,73 @@ func (f *Frame) callFnValue(fv Val, sig *types.Signature, args []Val, pc string,
 	if !static {
 		f.safe(pc, "dispatch", posOf(ins, f), or(idConds...), "function value is one of the functions ever stored in a value of this type (closed world)")
 	}
-	return f.mergeCallResults(sig.Results(), conds, states, results, st)
+	pre0 := st.clone()
+	rv, jpc := f.mergeCallResults(sig.Results(), conds, states, results, st)
+	if !static && len(viaContract) == len(work) && len(work) > 1 && !f.dry {
+		f.assumeCommonEnsures(viaContract, viaTargets, args, jpc, st, pre0)
+	}
+	return rv, jpc
+}
+
+// assumeCommonEnsures: after a dispatch that went through the contract of every candidate, a postcondition that every
+// one of these contracts states in the same words holds in the merged state as well (the merged state is one of the
+// branch states). Stating it there once spares the solver the case split over the candidates.
+func (f *Frame) assumeCommonEnsures(cons []*Contract, targets []*ssa.Function, args []Val, pc string, st, pre *State) {
+	vc := f.vc
+	t0 := targets[0]
+	for _, t := range targets {
+		if len(t.Params) != len(t0.Params) || t.Pkg != t0.Pkg {
+			return
+		}
+		for i := range t.Params {
+			if t.Params[i].Name() != t0.Params[i].Name() {
+				return
+			}
+		}
+	}
+	count := map[string]int{}
+	for _, c := range cons {
+		seen := map[string]bool{}
+		for _, e := range c.Ensures {
+			if len(e.Only) == 0 && !seen[e.Src] {
+				seen[e.Src] = true
+				count[e.Src]++
+			}
+		}
+	}
+	vars := map[string]Val{}
+	for i, p := range t0.Params {
+		a := args[i]
+		a.Typ = p.Type()
+		if a.Loc != nil {
+			if a.Loc.Kind != LocRef && a.Loc.Kind != LocArray {
+				return
+			}
+			a = Val{T: f.ptrTerm(a), Typ: p.Type()}
+		}
+		vars[p.Name()] = a
+	}
+	for _, e := range cons[0].Ensures {
+		if len(e.Only) > 0 || count[e.Src] != len(cons) || mentionsResult(e.E) {
+			continue
+		}
+		func() {
+			defer func() {
+				if r := recover(); r != nil {
+					if _, ok := r.(unsupported); !ok {
+						panic(r)
+					}
+				}
+			}()
+			env := &Env{vc: vc, pkg: t0.Pkg, st: st, old: pre, vars: vars, fn: t0}
+			vc.assume(pc, env.evalBool(e.E))
+		}()
+	}
+}
+
+func mentionsResult(x Expr) bool {
+	s := x.String()
+	return strings.Contains(s, "result") || strings.Contains(s, "ret0") || strings.Contains(s, "ret1")
 }
 
 // ghostDef evaluates the defining predicate of a ghost (a total definition: a prelude predicate marked
